@@ -1,176 +1,236 @@
-import Abmarl.Lemmas.Adapters
-import Abmarl.Model.StubSim
+import Abmarl.Props.C08Base
+import Abmarl.Props.C03Base
+import Abmarl.Lemmas.VitalsDecl
 /-!
-# C08 — Reset starts a fresh episode that does not depend on earlier episodes
+# C08, grid-world state components: a reset restores every agent, whatever happened before
 
-The model state of every layer carries **every** mutable field the Python object carries (turn
-pointer and done set of the managers; `_should_reset/_current_player` of the OpenSpiel adapter;
-`_obs/_reward/_done/_info` of `GymABS`; …) and `reset` is written field by field as the code does,
-so these theorems are false of a model that skips a field — which is how F3 (turn pointer), F4
-(`GymABS._done/_reward`) and F8 (placement order) were found.
+(The managers, the OpenSpiel adapter, `GymABS`: `Props/C08Base.lean`; the super-agent and
+communication wrappers: the reset clauses of `C14_trace` and `C20`.)
 
-* `ResetForgets S` — the hypothesis on the wrapped simulation: its own `reset` does not depend on
-  the prior state (the stub with a constant episode number satisfies it; the grid-world state
-  components are proved to, in `…`).
-* `mgr_reset_forgets` / `fresh_twin_managers` — for every simulation with `ResetForgets`, every
-  manager kind, every prefix history (any number of earlier episodes, cut anywhere), every seed
-  (tape) and every follow-up history: the trace of `reset :: follow-up` after the prefix equals the
-  trace on a newly built manager.
-* `os_reset_forgets` / `fresh_twin_openspiel`, `gymabs_reset_forgets` — the same for the OpenSpiel
-  adapter and for `GymABS`.
+`C08_grid_reset_fresh`: from **any** prior world — dirty grid, dead agents, spent ammunition,
+turned agents, any number of earlier episodes cut anywhere — a successful reset through a placement
+state, `HealthState`, `AmmoState` and `OrientationState` (in any order, any tape) leaves a world in
+which every agent is alive, has its declared health / ammunition / orientation / position (or a
+freshly drawn legal one), stands in the cell of its position, and the grid holds exactly the agents:
+everything the property lists, and nothing in the statement refers to the prior world.
 -/
 namespace Abmarl
-variable {σ α ω ι : Type}
+open World
 
-/-- the wrapped simulation's own reset does not depend on earlier episodes -/
-def ResetForgets (S : SimIface σ α ω ι) : Prop := ∀ s1 s2, S.reset s1 = S.reset s2
+/-- declared values are back -/
+def HealthDeclC (w : World) : Prop :=
+  ∀ a < w.n, ∀ h0, (w.cfgOf a).initHealth = some h0 → (w.stOf a).health = h0
+def AmmoExactC (w : World) : Prop :=
+  ∀ a < w.n, (w.cfgOf a).hasAmmo = true → (w.stOf a).ammo = max 0 (w.cfgOf a).initAmmo
+def OrientDeclC (w : World) : Prop :=
+  ∀ a < w.n, (w.cfgOf a).hasOrient = true → ∀ o, (w.cfgOf a).initOrient = some (o + 1) →
+    (w.stOf a).orient = o + 1
+def PosDeclC (w : World) : Prop :=
+  ∀ a < w.n, ∀ q, (w.cfgOf a).initPos = some q → (w.stOf a).pos = q
 
-/-- one `reset` brings two managers with the same configuration and seed into the same state and
-produces the same output, whatever happened before -/
-theorem runOp_reset_eq (S : SimIface σ α ω ι) (hR : ResetForgets S) (k : MKind)
-    (hl : k = .turnBased → S.learners ≠ []) (m1 m2 : MState σ)
-    (hsh : m1.shuffle = m2.shuffle) (ht : m1.tape = m2.tape) :
-    runOp (α := α) S k m1 .reset = runOp (α := α) S k m2 .reset := by
-  have hs : S.reset m1.sim = S.reset m2.sim := hR _ _
-  cases k with
-  | allStep => simp [runOp, mgrReset, hs, hsh, ht]
-  | dynamic => simp [runOp, mgrReset, hs, hsh, ht]
-  | turnBased =>
-    obtain ⟨a, rest, hL⟩ : ∃ a rest, S.learners = a :: rest := by
-      cases hL : S.learners with
-      | nil => exact absurd hL (hl rfl)
-      | cons a r => exact ⟨a, r, rfl⟩
-    simp [runOp, mgrReset, hs, hL, hsh, ht]
+/-- what one component's reset does to the "declared values" clause groups -/
+theorem applyComp_decl (c : StateComp) (w : World) (t : Tape) (w' : World) (t' : Tape)
+    (hwf : ∀ kind o, c = .position kind o → wfPlacement kind o w = true) (hcfg : CfgOK w)
+    (hlen : w.st.length = w.cfg.length) (h : applyComp c w t = .ok (w', t')) :
+    ((∃ kind o, c = .position kind o) ∨ PosDeclC w → PosDeclC w') ∧
+    (c = .health ∨ HealthDeclC w → HealthDeclC w') ∧
+    (c = .ammo ∨ AmmoExactC w → AmmoExactC w') ∧
+    (c = .orient ∨ OrientDeclC w → OrientDeclC w') := by
+  obtain ⟨hS, _⟩ := applyComp_spec c w t w' t' hwf hcfg hlen h
+  obtain ⟨hn, hcf⟩ := clause_frame hS
+  cases c with
+  | position kind o =>
+    have hspec := place_ok_spec kind o w t (hwf kind o rfl)
+    simp only [applyComp, placementReset, PlaceOut.toExcept] at h
+    cases herr : (resetX kind o w t).1.err with
+    | some e => rw [herr] at h; cases h
+    | none =>
+      rw [herr] at h
+      simp only [Except.ok.injEq, Prod.mk.injEq] at h
+      have hfix := (spec_ok_parts hspec herr).2.1
+      unfold specPlacement at hspec
+      simp only [Bool.and_eq_true] at hspec
+      obtain ⟨⟨⟨⟨_, _⟩, hvk⟩, _⟩, _⟩ := hspec
+      rw [h.1] at hvk hfix
+      have hv : ∀ a < w.n, w'.stOf a = { w.stOf a with pos := (w'.stOf a).pos } := by
+        simp only [vitalsKept, List.all_eq_true, allAgents, List.mem_range, beq_iff_eq] at hvk
+        exact hvk
+      refine ⟨fun _ => ?_, ?_, ?_, ?_⟩
+      · intro a ha q hq
+        simp only [fixedOnInit, List.all_eq_true, allAgents, List.mem_range] at hfix
+        have := hfix a ha
+        rw [hq] at this
+        simpa using this
+      · rintro (hc | hH)
+        · cases hc
+        · intro a ha h0 hi; rw [hn] at ha; rw [hcf] at hi; rw [hv a ha]; exact hH a ha h0 hi
+      · rintro (hc | hA)
+        · cases hc
+        · intro a ha hAm; rw [hn] at ha; rw [hcf] at hAm ⊢; rw [hv a ha]; exact hA a ha hAm
+      · rintro (hc | hO)
+        · cases hc
+        · intro a ha hOr o hi; rw [hn] at ha; rw [hcf] at hOr hi; rw [hv a ha]; exact hO a ha hOr o hi
+  | health =>
+    simp only [applyComp, Except.ok.injEq] at h
+    obtain ⟨hF, h2, h3, h4⟩ := healthResetFrom_spec (List.range w.n) w t List.nodup_range hcfg
+    have hd := healthResetFrom_declared (List.range w.n) w t List.nodup_range hcfg
+    have hw' : w' = (healthResetFrom false (List.range w.n) w t).1 := by
+      have := congrArg Prod.fst h; exact this.symm
+    rw [← hw'] at hF h2 h3 h4 hd
+    refine ⟨?_, ?_, ?_, ?_⟩
+    · rintro (⟨_, _, hc⟩ | hP)
+      · cases hc
+      · intro a ha q hq; rw [hn] at ha; rw [hcf] at hq; rw [hF.pos a]; exact hP a ha q hq
+    · intro _ a ha h0 hi
+      rw [hn] at ha; rw [hcf] at hi
+      exact hd a (List.mem_range.mpr ha) (by rw [hlen]; exact ha) h0 hi
+    · rintro (hc | hA)
+      · cases hc
+      · intro a ha hAm; rw [hn] at ha; rw [hcf] at hAm ⊢; rw [(h3 a).1]; exact hA a ha hAm
+    · rintro (hc | hO)
+      · cases hc
+      · intro a ha hOr o hi; rw [hn] at ha; rw [hcf] at hOr hi; rw [(h3 a).2]; exact hO a ha hOr o hi
+  | ammo =>
+    simp only [applyComp, Except.ok.injEq, Prod.mk.injEq] at h
+    obtain ⟨hF, h2, h3, h4, h5⟩ := ammoResetFrom_spec (List.range w.n) w List.nodup_range
+    have hw' : w' = ammoResetFrom (List.range w.n) w := h.1.symm
+    rw [← hw'] at hF h2 h3 h4 h5
+    refine ⟨?_, ?_, ?_, ?_⟩
+    · rintro (⟨_, _, hc⟩ | hP)
+      · cases hc
+      · intro a ha q hq; rw [hn] at ha; rw [hcf] at hq; rw [hF.pos a]; exact hP a ha q hq
+    · rintro (hc | hH)
+      · cases hc
+      · intro a ha h0 hi; rw [hn] at ha; rw [hcf] at hi; rw [(h3 a).1]; exact hH a ha h0 hi
+    · intro _ a ha hAm
+      rw [hn] at ha; rw [hcf] at hAm ⊢
+      exact h4 a (List.mem_range.mpr ha) (by rw [hlen]; exact ha) hAm
+    · rintro (hc | hO)
+      · cases hc
+      · intro a ha hOr o hi; rw [hn] at ha; rw [hcf] at hOr hi; rw [(h3 a).2.2]; exact hO a ha hOr o hi
+  | orient =>
+    simp only [applyComp, Except.ok.injEq] at h
+    obtain ⟨hF, h2, h3, h4⟩ := orientResetFrom_spec (List.range w.n) w t List.nodup_range hcfg
+    have hd := orientResetFrom_declared (List.range w.n) w t List.nodup_range hcfg
+    have hw' : w' = (orientResetFrom (List.range w.n) w t).1 := by
+      have := congrArg Prod.fst h; exact this.symm
+    rw [← hw'] at hF h2 h3 h4 hd
+    refine ⟨?_, ?_, ?_, ?_⟩
+    · rintro (⟨_, _, hc⟩ | hP)
+      · cases hc
+      · intro a ha q hq; rw [hn] at ha; rw [hcf] at hq; rw [hF.pos a]; exact hP a ha q hq
+    · rintro (hc | hH)
+      · cases hc
+      · intro a ha h0 hi; rw [hn] at ha; rw [hcf] at hi; rw [(h3 a).1]; exact hH a ha h0 hi
+    · rintro (hc | hA)
+      · cases hc
+      · intro a ha hAm; rw [hn] at ha; rw [hcf] at hAm ⊢; rw [(h3 a).2.2]; exact hA a ha hAm
+    · intro _ a ha hOr o hi
+      rw [hn] at ha; rw [hcf] at hOr hi
+      exact hd a (List.mem_range.mpr ha) (by rw [hlen]; exact ha) hOr o hi
 
-/-- **C08 (managers)**: `reset` followed by any history gives the same trace on any two managers of
-the same kind, configuration and seed over the same simulation — no matter what either went through
-before (any number of earlier episodes, each cut anywhere). -/
-theorem mgr_reset_forgets (S : SimIface σ α ω ι) (hR : ResetForgets S) (k : MKind)
-    (hl : k = .turnBased → S.learners ≠ []) (m1 m2 : MState σ)
-    (hsh : m1.shuffle = m2.shuffle) (ht : m1.tape = m2.tape) (ops : List (Op α)) :
-    runOps S k m1 (.reset :: ops) = runOps S k m2 (.reset :: ops) := by
-  simp only [runOps, runOp_reset_eq (α := α) S hR k hl m1 m2 hsh ht]
-
-/-- the manager state after a history -/
-def finalState (S : SimIface σ α ω ι) (k : MKind) : MState σ → List (Op α) → MState σ
-  | m, [] => m
-  | m, op :: ops => finalState S k (runOp S k m op).2 ops
-
-theorem runOp_shuffle (S : SimIface σ α ω ι) (k : MKind) (m : MState σ) (op : Op α) :
-    (runOp S k m op).2.shuffle = m.shuffle := by
-  cases op with
-  | reset =>
-    cases k with
-    | allStep => simp [runOp, mgrReset]
-    | dynamic => simp [runOp, mgrReset]
-    | turnBased =>
-      simp only [runOp, mgrReset]
-      cases S.learners <;> simp
-  | step acts =>
-    simp only [runOp]
-    cases hm : mgrStep S k m acts with
-    | error e => rfl
+/-- the same for a list of components reset one after the other — **in any order** -/
+theorem applyComps_decl (cs : List StateComp) :
+    ∀ (w : World) (t : Tape) (w' : World) (t' : Tape),
+      (∀ kind o, StateComp.position kind o ∈ cs → wfPlacement kind o w = true) → CfgOK w →
+      w.st.length = w.cfg.length → applyComps cs w t = .ok (w', t') →
+      ((∃ kind o, StateComp.position kind o ∈ cs) ∨ PosDeclC w → PosDeclC w') ∧
+      (StateComp.health ∈ cs ∨ HealthDeclC w → HealthDeclC w') ∧
+      (StateComp.ammo ∈ cs ∨ AmmoExactC w → AmmoExactC w') ∧
+      (StateComp.orient ∈ cs ∨ OrientDeclC w → OrientDeclC w') := by
+  induction cs with
+  | nil =>
+    intro w t w' t' _ _ _ h
+    simp only [applyComps, Except.ok.injEq, Prod.mk.injEq] at h
+    rw [← h.1]
+    refine ⟨?_, ?_, ?_, ?_⟩
+    · rintro (⟨_, _, h⟩ | h); cases h; exact h
+    · rintro (h | h); cases h; exact h
+    · rintro (h | h); cases h; exact h
+    · rintro (h | h); cases h; exact h
+  | cons c cs ih =>
+    intro w t w' t' hwf hcfg hlen h
+    simp only [applyComps] at h
+    cases h1 : applyComp c w t with
+    | error e => rw [h1] at h; cases h
     | ok r =>
-      obtain ⟨o, a, m'⟩ := r
-      simp only
-      by_cases hrej : acts.any (fun q => decide (q.1 ∈ m.doneSet)) = true
-      · simp [mgrStep, hrej] at hm
-      · have hacc : acts.any (fun q => decide (q.1 ∈ m.doneSet)) = false := by simpa using hrej
-        cases k with
-        | allStep =>
-          simp only [mgrStep, hacc, Bool.false_eq_true, if_false, Except.ok.injEq, Prod.mk.injEq] at hm
-          rw [← hm.2.2]
-        | dynamic =>
-          simp only [mgrStep, hacc, Bool.false_eq_true, if_false] at hm
-          split at hm
-          · simp only [Except.ok.injEq, Prod.mk.injEq] at hm; rw [← hm.2.2]
-          · simp only [Except.ok.injEq, Prod.mk.injEq] at hm; rw [← hm.2.2]
-        | turnBased =>
-          simp only [mgrStep, hacc, Bool.false_eq_true, if_false] at hm
-          split at hm
-          · simp only [Except.ok.injEq, Prod.mk.injEq] at hm; rw [← hm.2.2]
-          · split at hm
-            · cases hm
-            · simp only [Except.ok.injEq, Prod.mk.injEq] at hm; rw [← hm.2.2]
+      obtain ⟨w1, t1⟩ := r
+      rw [h1] at h
+      simp only at h
+      have hwf1 : ∀ k o, c = .position k o → wfPlacement k o w = true :=
+        fun k o hc => hwf k o (by rw [hc]; exact List.mem_cons_self)
+      obtain ⟨hS1, _⟩ := applyComp_spec c w t w1 t1 hwf1 hcfg hlen h1
+      obtain ⟨hP1, hH1, hA1, hO1⟩ := applyComp_decl c w t w1 t1 hwf1 hcfg hlen h1
+      have hlen1 : w1.st.length = w1.cfg.length := by rw [hS1.len, hS1.cfg]; exact hlen
+      obtain ⟨hP2, hH2, hA2, hO2⟩ := ih w1 t1 w' t'
+        (fun k o hm => by rw [wfPlacement_of_sframe hS1]; exact hwf k o (List.mem_cons_of_mem _ hm))
+        (cfgOK_of_sframe hS1 hcfg) hlen1 h
+      refine ⟨?_, ?_, ?_, ?_⟩
+      · rintro (⟨k, o, hm⟩ | hp)
+        · rcases List.mem_cons.mp hm with hm | hm
+          · exact hP2 (Or.inr (hP1 (Or.inl ⟨k, o, hm.symm⟩)))
+          · exact hP2 (Or.inl ⟨k, o, hm⟩)
+        · exact hP2 (Or.inr (hP1 (Or.inr hp)))
+      · rintro (hm | hp)
+        · rcases List.mem_cons.mp hm with hm | hm
+          · exact hH2 (Or.inr (hH1 (Or.inl hm.symm)))
+          · exact hH2 (Or.inl hm)
+        · exact hH2 (Or.inr (hH1 (Or.inr hp)))
+      · rintro (hm | hp)
+        · rcases List.mem_cons.mp hm with hm | hm
+          · exact hA2 (Or.inr (hA1 (Or.inl hm.symm)))
+          · exact hA2 (Or.inl hm)
+        · exact hA2 (Or.inr (hA1 (Or.inr hp)))
+      · rintro (hm | hp)
+        · rcases List.mem_cons.mp hm with hm | hm
+          · exact hO2 (Or.inr (hO1 (Or.inl hm.symm)))
+          · exact hO2 (Or.inl hm)
+        · exact hO2 (Or.inr (hO1 (Or.inr hp)))
 
-theorem finalState_shuffle (S : SimIface σ α ω ι) (k : MKind) :
-    ∀ (ops : List (Op α)) (m : MState σ), (finalState S k m ops).shuffle = m.shuffle := by
-  intro ops
-  induction ops with
-  | nil => intro m; rfl
-  | cons op ops ih => intro m; simp only [finalState]; rw [ih, runOp_shuffle]
+/-- **C08, grid-world state components.**  Whatever the prior world `w` (any earlier episodes, cut
+anywhere: moved, dead, disarmed, turned agents; a dirty grid), after a successful reset through a
+placement state and the three vitals components, in any order and under any tape:
 
-/-- **C08, used versus fresh twin**: an episode played after `reset` on a manager that went through
-any prefix history is indistinguishable from the same seeded episode on a newly built manager. -/
-theorem fresh_twin_managers (S : SimIface σ α ω ι) (hR : ResetForgets S) (k : MKind)
-    (hl : k = .turnBased → S.learners ≠ []) (m0 : MState σ) (history follow : List (Op α)) (seed : Tape) :
-    runOps S k { finalState S k m0 history with tape := seed } (.reset :: follow) =
-    runOps S k { m0 with tape := seed } (.reset :: follow) :=
-  mgr_reset_forgets S hR k hl { finalState S k m0 history with tape := seed } { m0 with tape := seed }
-    (finalState_shuffle S k history m0) rfl follow
-
-/-! ## OpenSpiel adapter -/
-
-/-- an explicit `reset()` of the adapter forgets `_should_reset`, the current player and everything
-the manager underneath remembered -/
-theorem os_reset_eq [DecidableEq α] (S : SimIface σ α ω ι) (hR : ResetForgets S) (k : MKind) (hW : WF S k)
-    (hk : k ≠ .dynamic) (hl : S.learners ≠ []) (st1 st2 : OSState σ)
-    (hsh : st1.m.shuffle = st2.m.shuffle) (ht : st1.m.tape = st2.m.tape) :
-    osReset (α := α) S k st1 = osReset (α := α) S k st2 := by
-  have hrs := runOp_reset_eq (α := α) S hR k (fun _ => hl) st1.m st2.m hsh ht
-  obtain ⟨h01, h07, _, _⟩ := reset_sound (α := α) hW st2.m {}
-  obtain ⟨rs, hrsd⟩ : ∃ rs, rs = runOp (α := α) S k st2.m .reset := ⟨_, rfl⟩
-  rw [← hrsd] at h01 h07
-  have hop : rs.1.op = .reset := by rw [hrsd]; exact runOp_op S k st2.m _
-  obtain ⟨obs, hobs⟩ : ∃ obs, rs.1.res = .resetOk obs := by
-    cases hr : rs.1.res with
-    | resetOk o => exact ⟨o, rfl⟩
-    | stepOk o => simp [c01Entry, hop, hr] at h01
-    | err e => simp [c01Entry, hop, hr] at h01
-  have hne : keys obs ≠ [] := by
-    cases k with
-    | dynamic => exact absurd rfl hk
-    | allStep =>
-      simp only [c07Entry, hop, hobs, Bool.and_eq_true, sameSet, List.all_eq_true, decide_eq_true_eq] at h07
-      intro he
-      obtain ⟨a, ha⟩ := List.exists_mem_of_ne_nil _ hl
-      have := h07.1.2 a ha
-      rw [he] at this; cases this
-    | turnBased =>
-      simp only [c07Entry, hop, hobs, Bool.and_eq_true, beq_iff_eq] at h07
-      have h1 : keys obs = S.learners.take 1 := h07.1
-      rw [h1]
-      cases hL : S.learners with
-      | nil => exact absurd hL hl
-      | cons x xs => simp
-  obtain ⟨p, hp⟩ : ∃ p, obs.head? = some p := by
-    cases ho : obs with
-    | nil => rw [ho] at hne; exact absurd rfl hne
-    | cons x xs => exact ⟨x, rfl⟩
-  simp only [osReset, hrs, ← hrsd, hobs, hp]
-
-/-- **C08 (OpenSpiel adapter)**: after an explicit `reset()` the play-through is the same on a used
-and on a fresh adapter. -/
-theorem fresh_twin_openspiel [DecidableEq α] (S : SimIface σ α ω ι) (hR : ResetForgets S) (k : MKind)
-    (hW : WF S k) (hk : k ≠ .dynamic) (hl : S.learners ≠ []) (st1 st2 : OSState σ)
-    (hsh : st1.m.shuffle = st2.m.shuffle) (ht : st1.m.tape = st2.m.tape)
-    (calls : List (Option (List α))) :
-    osRun S k st1 (none :: calls) = osRun S k st2 (none :: calls) := by
-  simp only [osRun, os_reset_eq S hR k hW hk hl st1 st2 hsh ht]
-
-/-! ## GymABS (a gym environment used as an AgentBasedSimulation) -/
-
-/-- **C08 (GymABS)**: if the environment's own reset does not depend on the past, neither does the
-adapter's — in particular `get_done()`/`get_reward()` right after reset are `None` again (F4). -/
-theorem gymabs_reset_forgets {ε : Type} (E : GymEnv ε α ω ι) (hE : ∀ e1 e2, E.reset e1 = E.reset e2)
-    (s1 s2 : GymABSSt ε ω ι) : gymabsReset E s1 = gymabsReset E s2 := by
-  simp [gymabsReset, hE s1.env s2.env]
-
-theorem gymabs_reset_clears {ε : Type} (E : GymEnv ε α ω ι) (s : GymABSSt ε ω ι) :
-    (gymabsReset E s).reward = none ∧ (gymabsReset E s).done = none := ⟨rfl, rfl⟩
-
-/-! ## The stub with a constant episode number forgets -/
-
-theorem stubFlat_forgets (sc : Script) : ResetForgets (stubSimFlat sc) := fun _ _ => rfl
+* the consistency invariant holds (`WInv`): the grid holds exactly the agents, each once, in the
+  cell of its position, co-occupants may overlap;
+* every agent is alive, with health in (0,1] — the declared one if one is declared;
+* ammunition is the declared initial ammunition; orientation is one of the four directions — the
+  declared one if one is declared; every agent with a declared initial position stands on it;
+* every agent stands in a grid cell that stores it. -/
+theorem C08_grid_reset_fresh (cs : List StateComp) (w : World) (t : Tape) (w' : World) (t' : Tape)
+    (hpos : ∃ kind o, StateComp.position kind o ∈ cs) (hh : StateComp.health ∈ cs)
+    (ha : StateComp.ammo ∈ cs) (ho : StateComp.orient ∈ cs)
+    (hwf : ∀ kind o, StateComp.position kind o ∈ cs → wfPlacement kind o w = true) (hcfg : CfgOK w)
+    (hn : NoAmmoC w) (h : applyComps cs w t = .ok (w', t')) :
+    w'.WInv = true ∧ w'.n = w.n ∧
+    (∀ a < w.n,
+      (w'.stOf a).active = true ∧ 0 < (w'.stOf a).health ∧ (w'.stOf a).health ≤ 1 ∧
+      (∀ h0, (w.cfgOf a).initHealth = some h0 → (w'.stOf a).health = h0) ∧
+      ((w.cfgOf a).hasAmmo = true → (w'.stOf a).ammo = max 0 (w.cfgOf a).initAmmo) ∧
+      ((w.cfgOf a).hasOrient = true → 1 ≤ (w'.stOf a).orient ∧ (w'.stOf a).orient ≤ 4 ∧
+        ∀ o, (w.cfgOf a).initOrient = some (o + 1) → (w'.stOf a).orient = o + 1) ∧
+      (∀ q, (w.cfgOf a).initPos = some q → (w'.stOf a).pos = q) ∧
+      w'.inGrid (w'.stOf a).pos = true ∧ a ∈ w'.cell (w'.stOf a).pos) := by
+  have hI := C03_reset_establishes cs w t w' t' hpos hh ha ho hwf hcfg hn h
+  obtain ⟨k0, o0, hm0⟩ := hpos
+  have hlen : w.st.length = w.cfg.length := by
+    have := hwf k0 o0 hm0
+    simp only [wfPlacement, Bool.and_eq_true, beq_iff_eq] at this
+    exact this.1.1.1.2
+  obtain ⟨hS, _, _, hH, _, hO⟩ := applyComps_spec cs w t w' t' hwf hcfg hlen h
+  obtain ⟨hPd, hHd, hAd, hOd⟩ := applyComps_decl cs w t w' t' hwf hcfg hlen h
+  obtain ⟨hn', hcf⟩ := clause_frame hS
+  refine ⟨hI, hn', ?_⟩
+  intro a haw
+  have ha' : a < w'.n := by rw [hn']; exact haw
+  obtain ⟨h0, h1, hact⟩ := hH (Or.inl hh) a ha'
+  have hpl := placed_of_WInv hI ha' hact
+  refine ⟨hact, h0, h1, ?_, ?_, ?_, ?_, hpl.inG, hpl.mem⟩
+  · intro x hx; exact hHd (Or.inl hh) a ha' x (by rw [hcf]; exact hx)
+  · intro hA; rw [← hcf a]; exact hAd (Or.inl ha) a ha' (by rw [hcf]; exact hA)
+  · intro hOr
+    have := hO (Or.inl ho) a ha' (by rw [hcf]; exact hOr)
+    exact ⟨this.1, this.2, fun o hi => hOd (Or.inl ho) a ha' (by rw [hcf]; exact hOr) o (by rw [hcf]; exact hi)⟩
+  · intro q hq; exact hPd (Or.inl ⟨k0, o0, hm0⟩) a ha' q (by rw [hcf]; exact hq)
 
 end Abmarl
